@@ -144,14 +144,19 @@ class TraitSet(set):
             The updated set.
         """
 
-        old_set = self.copy()
-        retval = super().__iand__(value)
-        removed = old_set.difference(self)
+        if not isinstance(value, (set, frozenset)):
+            return NotImplemented
+
+        # Remove our own items that are missing from ``value``, rather than
+        # relying on set.__iand__, which may replace validated items of this
+        # set with equal but unvalidated items of ``value``.
+        removed = self.difference(value)
 
         if len(removed) > 0:
+            super().difference_update(removed)
             self.notify(removed, set())
 
-        return retval
+        return self
 
     def __ior__(self, value):
         """ Return self |= value.
@@ -313,11 +318,13 @@ class TraitSet(set):
             The other iterables.
         """
 
-        old_set = self.copy()
-        super().intersection_update(*args)
-        removed = old_set.difference(self)
+        # Remove our own items that are missing from the intersection, rather
+        # than relying on set.intersection_update, which may replace validated
+        # items of this set with equal but unvalidated items of the arguments.
+        removed = self.difference(super().intersection(*args))
 
         if len(removed) > 0:
+            super().difference_update(removed)
             self.notify(removed, set())
 
     def pop(self):
